@@ -1,7 +1,7 @@
 """C17 -- created-at / last-updated version columns equal the model's ground truth."""
 from checks import table_common as T
 
-FAMILIES = [{'name': 'lineage', 'ids': [1, 2, 3, 4], 'vals': [5], 'maxv': 8, 'maxops': 3, 'maxops_thorough': 4, 'stable': [True], 'opkinds': ['append', 'update', 'upsert', 'delete', 'compact', 'restore', 'checkout']}]
+FAMILIES = [{'name': 'lineage', 'ids': [1, 2, 3, 4], 'vals': [5], 'maxv': 8, 'maxops': 3, 'maxops_thorough': 4, 'stable': [True], 'opkinds': ['append', 'update', 'upsert', 'colupdate', 'delete', 'compact', 'restore', 'checkout']}]
 
 
 def run(prop, tier, replay):
